@@ -20,6 +20,8 @@ def main():
            "--timeout=900", "--continue-on-collection-errors", "--junitxml=" + junit]
     p = subprocess.run(cmd, cwd=repo, env=env, stdout=subprocess.PIPE, stderr=subprocess.STDOUT, text=True)
     tail = p.stdout.strip().splitlines()[-1:] if p.stdout else []
+    # rdflib's W3C tests rewrite tracked report files; put them back
+    subprocess.run(["git", "-C", repo, "checkout", "--", "test_reports"], stdout=subprocess.DEVNULL, stderr=subprocess.DEVNULL)
     passed = set()
     for tc in ET.parse(junit).getroot().iter("testcase"):
         if any(ch.tag in ("failure", "error", "skipped") for ch in tc):
